@@ -64,9 +64,23 @@ def install(E):
         # number of products, the pairwise instances follow by congruence
         e.ax(('pmul', t.get_id()), t != 0, pdivk_f(t, P) == k, pdivp_f(t, k) == P)
         return t
+    def inverse_terms(t1, t2):
+        """syntactically inverse group elements: P and -P, or k*P and (-k)*P"""
+        if is_app_of(t1, 'pneg') and t1.arg(0).eq(t2): return True
+        if is_app_of(t2, 'pneg') and t2.arg(0).eq(t1): return True
+        if is_app_of(t1, 'pmul') and is_app_of(t2, 'pmul') and t1.arg(1).eq(t2.arg(1)):
+            k1, k2 = t1.arg(0), t2.arg(0)
+            if is_app_of(k1, 'sneg') and k1.arg(0).eq(k2): return True
+            if is_app_of(k2, 'sneg') and k2.arg(0).eq(k1): return True
+        return False
     def padd(e, a, b):
         if getattr(e, 'crypto_mode', 'alg') == 'alg': return a + b
         a, b = z3.simplify(a), z3.simplify(b)
+        # group cancellation, syntactically: (X + T) + (-T) = X  (re-blinding an unblinded signature with the same r)
+        for s1, s2 in ((a, b), (b, a)):
+            if is_app_of(s1, 'padd'):
+                if inverse_terms(s1.arg(1), s2): return s1.arg(0)
+                if inverse_terms(s1.arg(0), s2): return s1.arg(1)
         # commutativity by a canonical argument order; the structural hash is stable (AST ids are not: freed terms get new ids)
         # (function symbol first, so that sums of the same shape - Y + rG - always list their operands in the same order)
         na = a.decl().name() if z3.is_app(a) else ''; nb = b.decl().name() if z3.is_app(b) else ''
